@@ -4,7 +4,7 @@ import ast
 
 from .. import AnalysisError
 from ..cfg import ALL_KINDS, NORMAL_KINDS, iter_own
-from ..lib import collections_from, comp_norm, attr_stores, dominated_by, guard_forms, key_of, norm, render, type_is
+from ..lib import collections_from, comp_norm, inlined_expr, attr_stores, dominated_by, guard_forms, key_of, norm, render, type_is
 from ..report import describe, rule
 
 P = "C19"
@@ -185,7 +185,7 @@ def c19_4(ctx, r):
 
     def arg(name):
         v = ctx.arg_for(s, new, name)
-        return ctx.src(v) if v is not None else None
+        return ctx.src(inlined_expr(ctx, cp, v)) if v is not None else None
 
     r.check(arg("name") == "self._job.name", "Result.name = self._job.name", key_of(cp, "result name"), s.loc, f"name = {arg('name')}", "carries the job's name")
     r.check(arg("return_code") == "self._return_code", "Result.return_code = self._return_code", key_of(cp, "result rc"), s.loc, f"return_code = {arg('return_code')}", "its real exit code")
